@@ -423,7 +423,20 @@ func addHTTP(m map[string]Intrinsic) {
 	m["crypto/rand.Read"] = func(vm *VM, fn *ssa.Function, args []Value) Value {
 		return TupleV{intV(args[0].(SliceV).Len), IfaceV{}}
 	}
+	// vKDFInput(): (password, salt, time, memory, threads, keyLen) of the most recent argon2.IDKey call
+	m["vocab.vKDFInput"] = func(vm *VM, fn *ssa.Function, args []Value) Value {
+		if v, ok := vm.P.env["kdf.args"]; ok {
+			return v
+		}
+		return TupleV{SliceV{}, SliceV{}, mkBV(32, 0), mkBV(32, 0), mkBV(8, 0), mkBV(32, 0)}
+	}
 	m["golang.org/x/crypto/argon2.IDKey"] = func(vm *VM, fn *ssa.Function, args []Value) Value {
+		// the key derivation itself is trusted; what reservoir feeds it is recorded (copies)
+		cp := func(v Value) Value {
+			sl := v.(SliceV)
+			return vm.sliceFromValues(append([]Value(nil), vm.sliceElems(sl)...))
+		}
+		vm.P.env["kdf.args"] = TupleV{cp(args[0]), cp(args[1]), args[2], args[3], args[4], args[5]}
 		n := 4
 		e := make([]Value, n)
 		for i := range e {
